@@ -1,7 +1,6 @@
 package rules
 
 import (
-	"go/token"
 	"go/types"
 	"strings"
 
@@ -199,8 +198,11 @@ func failedResultNotUsed(r *Report, p *Program, rule string) {
 				if sig == nil || sig.Results().Len() < 2 || !isErrorT(sig.Results().At(sig.Results().Len()-1).Type()) {
 					continue
 				}
-				if _, isPtr := sig.Results().At(0).Type().Underlying().(*types.Pointer); !isPtr && !(g != nil && nilOnError(g)) {
+				if !isNillableT(sig.Results().At(0).Type()) && !(g != nil && nilOnError(g)) {
 					continue
+				}
+				if _, isSlice := sig.Results().At(0).Type().Underlying().(*types.Slice); isSlice {
+					continue // ranging over / len of a nil slice is fine
 				}
 				gname := engine.CallKey(call.Common())
 				ev := engine.ErrValue(call)
@@ -230,25 +232,7 @@ func failedResultNotUsed(r *Report, p *Program, rule string) {
 						return true // does not return
 					}
 					return x == ssa.Instruction(call) // executed again (next loop iteration): a new result
-				}, Target: func(x ssa.Instruction) bool {
-					switch y := x.(type) {
-					case ssa.CallInstruction:
-						cc := y.Common()
-						if cc.IsInvoke() && cc.Value == v {
-							return true
-						}
-						if !cc.IsInvoke() && len(cc.Args) > 0 && cc.Args[0] == v {
-							if h := engine.StaticFn(cc); h != nil && h.Signature.Recv() != nil {
-								return true
-							}
-						}
-					case *ssa.FieldAddr:
-						return y.X == v
-					case *ssa.UnOp:
-						return y.Op == token.MUL && y.X == v
-					}
-					return false
-				}}.Find()
+				}, Target: func(x ssa.Instruction) bool { return derefs(x, v) }}.Find()
 				r.Check(rule, c, p.InstrPos(call), w == nil, "the nil result of the failed call is not dereferenced on its error branch", "after "+Short(gname)+" failed, its (nil) result is dereferenced at "+func() string {
 					if w != nil {
 						return p.InstrPos(w.Instr)
